@@ -108,8 +108,11 @@ __wrap_open(const char * path, int flags, ...)
 	if (nsess < MAXSESS) {
 		cur = &sess[nsess++];
 		memset(cur, 0, sizeof(*cur));
-	} else
+	} else {
+		/* one request needs at most one (re)seed per 256 generate calls: this many opens in one call is a runaway loop */
+		sim_viol("C11.entropy-consumed", "open-loop", "the entropy device was opened %d times during one request", nsess + 1);
 		sim_internal("too many device sessions");
+	}
 	R->cnt[N_SESSIONS]++;
 	if (k == 1) {
 		R->cnt[N_F_OPEN]++;
@@ -821,6 +824,12 @@ do_dh(const struct pline * l)
 		(void)dh_once(privA, (l->a[6] & 64) ? NULL : peer, k3, l, &tpos, 1);
 		ossl_fail_at = -1;
 	}
+	/* 0b. in half of the runs the first Diffie-Hellman operation of the process is a shared-key computation, not a key generation */
+	if ((privB[7] & 1) && R->cnt[N_DH] == 0) {
+		blind_override = 0;
+		rc = dh_once(privB, peer, k3, l, &tpos, 0);
+		report_triple("K", privB, peer, 256, k3, rc);
+	}
 	/* 1. public values; agreement between two parties */
 	blind_override = 0;
 	rc = dh_once(privA, NULL, pubA, l, &tpos, 0);
@@ -933,7 +942,7 @@ do_dhenum(const struct pline * l)
 static void
 do_sanity(const struct pline * l)
 {
-	int ek = (int)(l->a[0] < 0 ? -l->a[0] : l->a[0]) % 10, rc, below;
+	int ek = (int)(l->a[0] < 0 ? -l->a[0] : l->a[0]) % 10, rc, below, nalloc, k;
 	uint8_t v[256];
 
 	make_value(v, 256, ek, (uint64_t)l->a[1]);
@@ -941,9 +950,14 @@ do_sanity(const struct pline * l)
 		/* perturb one byte far from the top: still >= p or < p as memcmp says */
 		v[255 - (l->a[2] % 200)] ^= (uint8_t)(1 + l->a[2] % 200);
 	}
+	ossl_n = 0;
+	ossl_failed = 0;
+	ossl_count_on = 1;
 	LIB_ENTER();
 	rc = crypto_dh_sanitycheck(v);
 	LIB_LEAVE();
+	ossl_count_on = 0;
+	nalloc = ossl_n;
 	R->cnt[N_SANITY]++;
 	below = (memcmp(v, crypto_dh_group14, 256) < 0);	/* big-endian equal-length strings: numeric order */
 	{
@@ -957,6 +971,21 @@ do_sanity(const struct pline * l)
 	report_triple("S", (const uint8_t *)"\0\0\0\0\0\0\0\0\0\0\0\0\0\0\0\0\0\0\0\0\0\0\0\0\0\0\0\0\0\0\0\0", v, 256, v, rc == 0 ? 0 : 1);
 	if ((rc == 0) != below)
 		sim_viol("C10.sanity", "sanity", "the sanity check %s a value that is %s the group prime", rc == 0 ? "accepted" : "rejected", below ? "below" : "not below");
+	/* should the check allocate (the pinned code does not): no failing allocation may turn "not below p" into "accepted" */
+	for (k = 0; k < nalloc && k < 64 && !below; k++) {
+		int rc2;
+
+		ossl_n = 0;
+		ossl_fail_at = k;
+		ossl_count_on = 1;
+		LIB_ENTER();
+		rc2 = crypto_dh_sanitycheck(v);
+		LIB_LEAVE();
+		ossl_count_on = 0;
+		ossl_fail_at = -1;
+		if (rc2 == 0)
+			sim_viol("C10.sanity", "accepted-under-failure", "with libcrypto allocation %d of %d failing, the sanity check accepted a value that is not below the group prime", k, nalloc);
+	}
 }
 
 /* ================= generation ================= */
